@@ -2,6 +2,7 @@ package queue
 
 import (
 	"container/heap"
+	"lunar/engine/verifhook"
 	"lunar/toolkit-core/clock"
 	"lunar/toolkit-core/logging"
 	"sync"
@@ -79,6 +80,7 @@ func (dpq *DelayedPriorityQueue) Enqueue(
 	dpq.requestCounts[req.priority]++
 
 	dpq.mutex.Unlock()
+	verifhook.Yield("dpq.unlocked")
 
 	// Wait until request is processed or TTL expires
 	select {
@@ -147,6 +149,7 @@ func (dpq *DelayedPriorityQueue) totalQueueCount() int64 {
 func (dpq *DelayedPriorityQueue) process() {
 	for {
 		<-dpq.clock.After(dpq.GetTimeTillWindowEnd())
+		verifhook.Yield("dpq.tick_before_lock")
 		dpq.mutex.Lock()
 		dpq.ensureWindowIsUpdated()
 		dpq.processQueueItems()
